@@ -149,7 +149,9 @@ Proof. vm_compute. reflexivity. Qed.
    the history alone (Spec.v): closed silent() blocks are skipped with everything they contain;
    of what remains the most recent of set_silent(b) / entering a still-open block decides.
    This is what the repaired silent() does: it saves the flag, sets it, and restores the saved
-   value on exit, so a set_silent inside the block holds until the block is left. *)
+   value on exit -- in a `finally:` clause (fix-c19c), so also when the block is left by an
+   exception (operation SilentExitExc) -- and a set_silent inside the block holds until the block
+   is left. *)
 Theorem C19_dispatch_all : forall (Arg Res : Type) (beh : func -> Z -> Arg -> Res)
     (p : list (op Arg)) (ev snd : Z) (a : Arg) (single : option bool) (rest : list (op Arg)),
   brackets_ok p = true ->
@@ -178,15 +180,16 @@ Proof. exact silenced_agree_full. Qed.
 Print Assumptions C19_silenced_agree.
 
 (* what [silenced_all] means, without the scan: not silenced initially; set_silent(b) makes it b;
-   entering a block silences; other operations change nothing; and a completed `with silent():`
-   block -- with ANY balanced body, set_silent calls included -- leaves silencing as it was *)
+   entering a block silences; other operations change nothing; and a `with silent():` block that
+   has been left -- normally (SilentExit) or by an exception (SilentExitExc), with ANY balanced body,
+   set_silent calls included -- leaves silencing as it was before the block *)
 Theorem C19_silenced_all_meaning : forall (Arg : Type),
   silenced_all (@nil (op Arg)) = false /\
   (forall (p : list (op Arg)) b, silenced_all (p ++ [SetSilent b]) = b) /\
   (forall p : list (op Arg), silenced_all (p ++ [SilentEnter]) = true) /\
   (forall (p : list (op Arg)) o, is_flag_op o = false -> silenced_all (p ++ [o]) = silenced_all p) /\
-  (forall (p b : list (op Arg)), balanced b ->
-     silenced_all (p ++ SilentEnter :: b ++ [SilentExit]) = silenced_all p).
+  (forall (p b : list (op Arg)) x, balanced b -> is_exit x = true ->
+     silenced_all (p ++ SilentEnter :: b ++ [x]) = silenced_all p).
 Proof. exact silenced_all_equations. Qed.
 Print Assumptions C19_silenced_all_meaning.
 
@@ -196,7 +199,7 @@ Theorem C19_silenced_all_unique : forall (Arg : Type) (S' : list (op Arg) -> boo
   (forall p b, S' (p ++ [SetSilent b]) = b) ->
   (forall p, S' (p ++ [SilentEnter]) = true) ->
   (forall p o, is_flag_op o = false -> S' (p ++ [o]) = S' p) ->
-  (forall p b, balanced b -> S' (p ++ SilentEnter :: b ++ [SilentExit]) = S' p) ->
+  (forall p b x, balanced b -> is_exit x = true -> S' (p ++ SilentEnter :: b ++ [x]) = S' p) ->
   forall p, brackets_ok p = true -> S' p = silenced_all p.
 Proof. exact silenced_all_unique. Qed.
 Print Assumptions C19_silenced_all_unique.
@@ -216,10 +219,21 @@ Example C19_ex3_after :      (* leaving the block restores set_silent(True) *)
   balanced [@SetSilent Z false; SilentEnter; SetSilent true; SilentExit].
 Proof.
   split; [vm_compute; reflexivity|].
-  apply bal_other; [reflexivity|reflexivity|]. apply (bal_block Z [SetSilent true] []).
+  apply bal_other; [reflexivity|reflexivity|]. apply (bal_block Z [SetSilent true] SilentExit []).
+  - reflexivity.
   - apply bal_other; [reflexivity|reflexivity|constructor].
   - constructor.
 Qed.
+(* a block left by an exception is closed like any other: the flag saved on entry comes back
+   (on the code before fix-c19c the emitter stayed silenced for good: see notes/C19.md) *)
+Example C19_ex3_exc_exit :
+  outs (fun f _ x => fn_id f + x) init
+       [Connect f0 ByName None false; SilentEnter; Emit 0 1 7 None; SilentExitExc; Emit 0 1 7 None;
+        SetSilent true; SilentEnter; SetSilent false; SilentExitExc; Emit 0 1 7 None] =
+  [ONone; ONone; OEmit [] RNone; ONone; OEmit [mkcall f0 1 7] (RList [7]);
+   ONone; ONone; ONone; ONone; OEmit [] RNone] /\
+  silenced_all [@SilentEnter Z; SilentExitExc] = false /\ brackets_ok [@SilentExitExc Z] = false.
+Proof. vm_compute. repeat split. Qed.
 
 (* ---------------------------------------------------------------------------------------------
    Stage 3.  Callbacks that raise.  The statement's "calls exactly the currently registered
